@@ -34,7 +34,7 @@ ASSUMPTIONS = [
 @st.composite
 def _case(draw, tier):
     N = 8 if tier == "quick" else 40
-    form = draw(st.sampled_from(["while", "while", "dowhile", "signal", "selfsignal"]))
+    form = draw(st.sampled_from(["while", "while", "dowhile", "signal", "selfsignal", "waitlast"]))
     step = draw(st.sampled_from([1, 1, 2, 3]))
     start = draw(st.integers(0, 5))
     iters = draw(st.integers(0, N))
@@ -57,6 +57,8 @@ def _case(draw, tier):
     }
     if form == "selfsignal":
         L.update({"k": 2, "acc": False, "nested": False, "limit_input": L["limit_input"]})
+    if form == "waitlast":
+        L.update({"k": draw(st.integers(3, 4)), "nested": False})
     if L["nested"]:
         # a nested loop whose cycle has >= 2 nodes cannot be entered at all today (open finding F11, reported by C08):
         # the generator avoids that shape by construction so the budget is spent behind the finding
